@@ -4,11 +4,20 @@
 
 package client
 
+// The shape NewTemporalLogClient gives every shard list (its postconditions): no shard is inverted,
+// each shard starts where the previous one ended (so only the first may lack a lower and only the
+// last an upper bound), and hence earlier shards end before later ones start.
+//@ macro shardListOK(t *TemporalLogClient) bool = (forall k int :: 0 <= k && k < len(t.intervals) ==> t.intervals[k].lower == nil || t.intervals[k].upper == nil || instant(*t.intervals[k].lower) < instant(*t.intervals[k].upper)) && (forall k int :: 1 <= k && k < len(t.intervals) ==> t.intervals[k].lower != nil && t.intervals[k-1].upper != nil && instant(*t.intervals[k].lower) == instant(*t.intervals[k-1].upper)) && (forall b int :: 1 <= b && b < len(t.intervals) ==> (forall a int :: 0 <= a && a < b ==> t.intervals[a].upper != nil && t.intervals[b].lower != nil && instant(*t.intervals[a].upper) <= instant(*t.intervals[b].lower)))
+
 //@ func (*TemporalLogClient).IndexByDate
 //@ props C18
 //@ arith int
 //@ pure
 //@ requires tlc != nil
+//@ requires shardListOK(tlc)
+//@ loop 1 invariant (len(tlc.intervals) >= 1 && (tlc.intervals[0].lower == nil || instant(*tlc.intervals[0].lower) <= instant(when))) && rangeindex >= 0 ==> tlc.intervals[rangeindex].upper != nil && instant(*tlc.intervals[rangeindex].upper) <= instant(when)
+//@ ensures [no-other-shard-contains-the-instant] result1 == nil ==> (forall j int :: 0 <= j && j < len(tlc.intervals) && j != result0 ==> !inside(tlc.intervals[j].lower, tlc.intervals[j].upper, when))
+//@ ensures [every-instant-of-the-overall-span-is-routed] len(tlc.intervals) >= 1 && inside(tlc.intervals[0].lower, tlc.intervals[len(tlc.intervals)-1].upper, when) ==> result1 == nil
 //@ loop 1 invariant forall j int :: 0 <= j && j <= rangeindex ==> !inside(tlc.intervals[j].lower, tlc.intervals[j].upper, when)
 //@ ensures [routes-to-the-first-shard-whose-window-contains-the-instant] result1 == nil ==> 0 <= result0 && result0 < len(tlc.intervals) && inside(tlc.intervals[result0].lower, tlc.intervals[result0].upper, when) && (forall j int :: 0 <= j && j < result0 ==> !inside(tlc.intervals[j].lower, tlc.intervals[j].upper, when))
 //@ ensures [error-iff-no-shard-contains-the-instant] result1 != nil ==> result0 == -1 && (forall j int :: 0 <= j && j < len(tlc.intervals) ==> !inside(tlc.intervals[j].lower, tlc.intervals[j].upper, when))
@@ -40,6 +49,9 @@ package client
 //@ loop 1 invariant overall.upper == intervals[i-1].upper
 //@ loop 1 invariant forall k int :: 0 <= k && k < i ==> intervals[k].lower == nil || intervals[k].upper == nil || instant(*intervals[k].lower) < instant(*intervals[k].upper)
 //@ loop 1 invariant forall k int :: 1 <= k && k < i ==> intervals[k].lower != nil && intervals[k-1].upper != nil && instant(*intervals[k].lower) == instant(*intervals[k-1].upper)
+//@ loop 1 invariant forall b int :: 1 <= b && b < i ==> (forall a int :: 0 <= a && a < b ==> intervals[a].upper != nil && intervals[b].lower != nil && instant(*intervals[a].upper) <= instant(*intervals[b].lower))
+//@ loop 2 invariant forall b int :: 1 <= b && b < len(intervals) ==> (forall a int :: 0 <= a && a < b ==> intervals[a].upper != nil && intervals[b].lower != nil && instant(*intervals[a].upper) <= instant(*intervals[b].lower))
+//@ ensures [earlier-shards-end-before-later-shards-start] result1 == nil ==> (forall b int :: 1 <= b && b < len(result0.intervals) ==> (forall a int :: 0 <= a && a < b ==> result0.intervals[a].upper != nil && result0.intervals[b].lower != nil && instant(*result0.intervals[a].upper) <= instant(*result0.intervals[b].lower)))
 //@ ensures [empty-config-refused] len(cfg.Shard) == 0 ==> result1 != nil
 //@ ensures [any-invalid-shard-refused] (s0.called && s0.res1 != nil) ==> result1 != nil
 //@ ensures [one-interval-per-shard] result1 == nil ==> result0 != nil && len(result0.intervals) == len(cfg.Shard) && len(result0.intervals) >= 1
@@ -53,6 +65,7 @@ package client
 //@ site IndexByDate#1 as ix
 //@ site addChainWithRetry#1 as sub
 //@ requires tlc != nil && len(tlc.Clients) == len(tlc.intervals)
+//@ requires shardListOK(tlc)
 //@ requires forall j int :: 0 <= j && j < len(tlc.Clients) ==> tlc.Clients[j] != nil && tlc.Clients[j].logger != nil && tlc.Clients[j].backoff != nil && tlc.Clients[j].httpClient != nil && verifierOK(tlc.Clients[j].Verifier)
 //@ ensures [empty-chain-refused] len(chain) == 0 ==> result1 != nil && !sub.called
 //@ ensures [unroutable-certificate-refused] ix.called && ix.res1 != nil ==> result1 != nil && !sub.called
@@ -199,6 +212,7 @@ package client
 //@ props C12 C18
 //@ site addChain#1 as sub
 //@ requires tlc != nil && len(tlc.Clients) == len(tlc.intervals)
+//@ requires shardListOK(tlc)
 //@ requires forall j int :: 0 <= j && j < len(tlc.Clients) ==> tlc.Clients[j] != nil && tlc.Clients[j].logger != nil && tlc.Clients[j].backoff != nil && tlc.Clients[j].httpClient != nil && verifierOK(tlc.Clients[j].Verifier)
 //@ ensures [result-is-the-routed-submission] result0 == sub.res0 && result1 == sub.res1
 //@ at sub assert [x509-entry-type-on-add-chain] sub.ctype == ct.X509LogEntryType && sub.path == "/ct/v1/add-chain" && sub.chain == chain && sub.tlc == tlc
@@ -207,6 +221,7 @@ package client
 //@ props C12 C18
 //@ site addChain#1 as sub
 //@ requires tlc != nil && len(tlc.Clients) == len(tlc.intervals)
+//@ requires shardListOK(tlc)
 //@ requires forall j int :: 0 <= j && j < len(tlc.Clients) ==> tlc.Clients[j] != nil && tlc.Clients[j].logger != nil && tlc.Clients[j].backoff != nil && tlc.Clients[j].httpClient != nil && verifierOK(tlc.Clients[j].Verifier)
 //@ ensures [result-is-the-routed-submission] result0 == sub.res0 && result1 == sub.res1
 //@ at sub assert [precert-entry-type-on-add-pre-chain] sub.ctype == ct.PrecertLogEntryType && sub.path == "/ct/v1/add-pre-chain" && sub.chain == chain && sub.tlc == tlc
